@@ -244,12 +244,15 @@ type canceller struct {
 func (c *canceller) Preempt(ctx context.Context, req *jsonrpc.Request) (result any, err error) {
 	if req.Method == notificationCancelled {
 		var params CancelledParams
+		// Leave a malformed cancellation to the regular handler path, which
+		// rejects it with the standard JSON-RPC error codes (returning the raw
+		// decoding error from here would be sent with error code 0).
 		if err := internaljson.Unmarshal(req.Params, &params); err != nil {
-			return nil, err
+			return nil, jsonrpc2.ErrNotHandled
 		}
 		id, err := jsonrpc2.MakeID(params.RequestID)
 		if err != nil {
-			return nil, err
+			return nil, jsonrpc2.ErrNotHandled
 		}
 		go c.conn.Cancel(id)
 	}
